@@ -2,7 +2,7 @@
 
 from __future__ import annotations
 
-from typing import TYPE_CHECKING, Generic, TypeVar
+from typing import TYPE_CHECKING, Any, Generic, TypeVar
 
 from quansino.moves.composite import CompositeMove
 from quansino.moves.core import BaseMove
@@ -108,6 +108,20 @@ class CellMove(
             Whether the move was valid.
         """
         return self.attempt_deformation(context)
+
+    def to_dict(self) -> dict[str, Any]:
+        """
+        Convert the `CellMove` object to a dictionary.
+
+        Returns
+        -------
+        dict[str, Any]
+            A dictionary representation of the `CellMove` object.
+        """
+        dictionary = super().to_dict()
+        dictionary.setdefault("kwargs", {})["scale_atoms"] = self.scale_atoms
+
+        return dictionary
 
     @property
     def default_operation(self) -> Operation:
